@@ -1,12 +1,25 @@
 """C07 -- bracketing root finders (src/roots/mod.rs: bisection, brent, itp)."""
 from vx.unit import Unit
+from vx import nra
+
+SECANT = nra.Lemma("lemma_secant_between", ["l", "r", "fl", "fr"],
+                   ["fl * fr <= 0", "not (fl == 0 and fr == 0)"],
+                   "fr - fl != 0 and min(l, r) <= r - fr * (r - l) / (fr - fl) <= max(l, r)",
+                   note="the secant point of a sign-change bracket lies inside the bracket")
+
+
+def extra_obligations(ctx):
+    return nra.run_lemmas("C07", "roots", [SECANT], ctx)
+
 
 def units(ctx):
     u = Unit("C07", "roots")
     u.spec(r'''
 pub uninterp spec fn F(t: real) -> real;
+''' + SECANT.verus_stub() + r'''
 // [l, r] is a sign-change bracket around x of width <= w inside [a, b]
 pub open spec fn sc(l: real, r: real) -> bool { F(l) * F(r) <= 0real }
+pub open spec fn nonpos_nonneg(l: real, r: real) -> bool { F(l) <= 0real <= F(r) }
 pub open spec fn fz(z: real) -> bool { F(z) == 0real }
 pub open spec fn sign_bracket(a: real, b: real, x: real, w: real) -> bool {
     exists|l: real, r: real| a <= l <= x && x <= r <= b && r - l <= w && #[trigger] sc(l, r)
@@ -16,6 +29,7 @@ pub open spec fn sign_bracket(a: real, b: real, x: real, w: real) -> bool {
 pub open spec fn exact_zero_in(a: real, b: real) -> bool {
     exists|z: real| a <= z <= b && #[trigger] fz(z)
 }
+pub proof fn lemma_mul_comm(a: real, b: real) ensures a * b == b * a { assert(a * b == b * a) by(nonlinear_arith); }
 pub proof fn lemma_sign_keep(fl: real, fm: real, fr: real)
     requires fl * fr <= 0real, fm * fl > 0real
     ensures fm * fr <= 0real
@@ -69,4 +83,104 @@ pub proof fn lemma_sign_keep2(fl: real, fm: real, fr: real)
             assert(right@ - left@ <= 2real * (tol@ * rmax(1real, rabs(middle_new@))));
         }
     }""")
+    brent(u)
+    itp(u)
     return [u]
+
+
+def itp(u):
+    f = u.fn("src/roots/mod.rs", "itp")
+    f.attrs.append("#[verifier::exec_allows_no_decreases_clause]")
+    # the i32 iteration counter has no bound in the code (termination is not decided): its
+    # overflow check is switched off by using the release-mode (wrapping) meaning of `+= 1`
+    f.opt(subst=[("j += 1", "j = j.wrapping_add(1)", "R9-wrapping-counter")])
+    f.req("forall|t: R| f_0.requires((t,))",    # where ITP evaluates f is NOT decided (see NOT_DECIDED)
+          "forall|t: R, y: R| f_0.ensures((t,), y) ==> y@ == F(t@)")
+    f.ens("tol@ < 0real ==> res is Err",
+          "k_1@ < 0real ==> res is Err",
+          "k_2@ <= 1real ==> res is Err",
+          "k_2@ >= 1real + 0.5real * (1real + rsqrt(5real)) ==> res is Err",
+          "F(initial.0@) * F(initial.1@) > 0real ==> res is Err",
+          "F(initial.0@) * F(initial.1@) < 0real && res is Ok ==> exists|l: real, r: real| res->Ok_0@ == (l + r) / 2real "
+          "&& rabs(r - l) <= 2real * tol@ && #[trigger] nonpos_nonneg(l, r)")
+    f.loop(1, invariant=[
+        "two@ == 2real", "f == f_0",
+        "F(initial.0@) * F(initial.1@) < 0real ==> F(left@) <= 0real <= F(right@)",
+    ])
+    f.hint("before: let two", r"""proof {
+        let a = F(initial.0@); let b = F(initial.1@);
+        assert(a * b < 0real ==> ((a < 0real && b > 0real) || (a > 0real && b < 0real))) by(nonlinear_arith);
+    }""")
+    f.hint("after loop 1", r"""proof {
+        if F(initial.0@) * F(initial.1@) < 0real {
+            assert(nonpos_nonneg(left@, right@));
+            assert(two@ * tol@ == 2real * tol@) by(nonlinear_arith) requires two@ == 2real;
+        }
+    }""")
+    return f
+
+
+def brent(u):
+    f = u.fn("src/roots/mod.rs", "brent")
+    f.attrs.append("#[verifier::exec_allows_no_decreases_clause]")
+    LO, HI = "rmin(initial.0@, initial.1@)", "rmax(initial.0@, initial.1@)"
+    f.req(f"forall|t: R| {LO} <= t@ <= {HI} ==> f_0.requires((t,))",
+          "forall|t: R, y: R| f_0.ensures((t,), y) ==> y@ == F(t@)",
+          # both end points being exact roots makes the first secant point 0/0
+          "!(F(initial.0@) == 0real && F(initial.1@) == 0real)")
+    f.ens("tol@ < 0real ==> res is Err",
+          "F(initial.0@) * F(initial.1@) > 0real ==> res is Err",
+          f"res is Ok ==> {LO} <= res->Ok_0@ <= {HI}",
+          f"res is Ok ==> rabs(F(res->Ok_0@)) < tol@ || sign_bracket({LO}, {HI}, res->Ok_0@, tol@) || exact_zero_in({LO}, {HI})")
+    f.loop(1, invariant=[
+        f"{LO} <= left@ <= {HI}", f"{LO} <= right@ <= {HI}", f"{LO} <= s@ <= {HI}",
+        "f_left@ == F(left@)", "f_right@ == F(right@)", "f_s@ == F(s@)",
+        f"F(left@) * F(right@) <= 0real || exact_zero_in({LO}, {HI})",
+        "two@ == 2real", "three@ == 3real", "four@ == 4real",
+        "f == f_0",
+    ])
+    f.hint("before: let mut c = left", r"""proof {
+        assert(f_left@ * f_right@ <= 0real);
+        assert(F(initial.0@) * F(initial.1@) <= 0real) by(nonlinear_arith)
+            requires f_left@ * f_right@ <= 0real, (f_left@ == F(initial.0@) && f_right@ == F(initial.1@)) || (f_left@ == F(initial.1@) && f_right@ == F(initial.0@));
+        lemma_secant_between(left@, right@, f_left@, f_right@);
+    }""")
+    f.hint("loop 1 begin", "let ghost l0 = left@; let ghost r0 = right@;")
+    f.hint("before: #2 if f_left.abs() < f_right.abs()", r"""proof {
+        let fl = F(l0); let fr = F(r0); let fs = F(s@);
+        if fl * fr <= 0real {
+            if fl * fs < 0real { }
+            else if fl * fs > 0real { lemma_mul_comm(fl, fs); lemma_sign_keep(fl, fs, fr); }
+            else {
+                assert(fs == 0real || fl == 0real) by(nonlinear_arith) requires fl * fs == 0real;
+                assert(fz(s@) || fz(l0));
+            }
+        }
+    }""")
+    f.hint("after loop 1", r"""proof {
+        if F(left@) * F(right@) <= 0real && rabs(left@ - right@) < tol@ {
+            if left@ <= right@ { assert(sc(left@, right@)); }
+            else { assert(F(right@) * F(left@) <= 0real) by(nonlinear_arith) requires F(left@) * F(right@) <= 0real; assert(sc(right@, left@)); }
+        }
+    }""")
+    return f
+
+
+DECIDED = [
+    "bisection/brent: the callback's precondition is the closed initial bracket, so every evaluation point is proved to lie inside it",
+    "bisection/brent: an Ok result lies in the bracket and has a sign-change bracket of width <= 2*tol*max(1,|x|) (bisection) / tol (brent) around it, or |F(x)| < tol (brent), or the callback was evaluated exactly on a root",
+    "bisection: at most n_max loop iterations (decreases n_max + 1 - n), one evaluation per iteration, two before the loop",
+    "Err for: same-sign end values (all three), left >= right and tol <= 0 (bisection), tol < 0 (brent, itp), k_1 < 0, k_2 outside (1, 1+phi) (itp)",
+    "itp: an Ok result is the midpoint of a pair (l, r) with F(l) <= 0 <= F(r) and |r - l| <= 2 tol",
+]
+NOT_DECIDED = [
+    "termination of brent and itp (no iteration counter in the code; the ITP bound needs log2/ceil/powf facts) -- loops are marked exec_allows_no_decreases_clause",
+    "itp: that evaluation points stay inside the initial interval (needs r >= 0, i.e. the log2/ceil/powf projection-radius argument; powf/log2/ceil are uninterpreted)",
+    "behaviour that depends on the sign bit of an exact zero (+0.0/-0.0): is_sign_positive/negative are unconstrained at 0, the contract then only claims `the callback was evaluated on an exact root in the bracket`",
+]
+ASSUMPTIONS = [
+    "callbacks are pure functions of their argument (uninterpreted F)",
+    "bisection: n_max < usize::MAX (the counter n += 1 would otherwise overflow after 2^64 iterations)",
+    "brent: not both end points are exact roots (0/0 in the first secant step)",
+    "itp: overflow of the i32 iteration counter is not checked (rule R9-wrapping-counter)",
+]
